@@ -325,6 +325,7 @@ pub fn finish(meta: &CheckMeta, tier: Tier, seed: u64, started: Instant, aggs: V
         "samples": samples,
         "engines": Value::Object(per_engine),
         "inconclusive_scenarios": n_incon,
+        "inconclusive_examples": inconclusive,
         "known_finding_hits": known_hits.iter().map(|(k, v)| json!({"signature": k, "count": v.1})).collect::<Vec<_>>(),
     });
     if let (Some(c), Some(e)) = (coverage.as_object_mut(), extra.as_object()) {
